@@ -71,6 +71,7 @@ from .packet.packets import Marker
 from .packet.packets import SKESessionKey
 from .packet.packets import SKESessionKeyV4
 
+from .packet.types import Header as PacketHeader
 from .packet.types import Opaque
 
 from .types import Armorable
@@ -360,6 +361,15 @@ class PGPSignature(Armorable, ParentRef, PGPObject):
         self._signature = None
 
     def __bytearray__(self):
+        if self.embedded:
+            # an embedded signature is held as the subpacket it arrived in (length, type 0x20, body); on its own
+            # it is written as what that body is: a Signature packet
+            body = self._signature._sig.__bytearray__()
+            header = PacketHeader()
+            header.tag = 2
+            header.length = len(body)
+            return header.__bytearray__() + body
+
         return self._signature.__bytearray__()
 
     def __repr__(self):
